@@ -179,6 +179,8 @@ type unmarshalEntry struct {
 type hasher struct {
 	// IDSize of the respective Shwap container
 	IDSize int // to be set during hasher registration
+	// MhCode is the multihash code the hasher is registered for
+	MhCode uint64 // to be set during hasher registration
 
 	sum []byte
 }
@@ -204,6 +206,13 @@ func (h *hasher) write(data []byte) error {
 	id, err := extractFromCID(cid)
 	if err != nil {
 		return err
+	}
+
+	// the block has to carry an identifier of the kind this hasher is registered for: the resulting
+	// digest is cut to the requested length and identifiers of different kinds share their prefix,
+	// so a block of another kind could otherwise satisfy the request
+	if cid.Prefix().MhType != h.MhCode || len(id) != h.IDSize {
+		return fmt.Errorf("cid %s does not belong to multihash %d", cid.String(), h.MhCode)
 	}
 
 	// get registered UnmarshalFn and use it to check data validity and
